@@ -1,9 +1,147 @@
--- line-protocol handler of property C11 (stub: nothing modelled yet)
+-- line-protocol handler of property C11 (hash functions)
 import Winter.Drv.Util
+import Winter.Model.Rescue
 
 namespace Drv.C11
+open Model Model.Rescue
 
-def handle (_toks : List String) : String := "-"
+def rescue? : String → Option Params
+  | "rp64" => some rp64
+  | "rpjive" => some rpjive
+  | "rp62" => some rp62
+  | _ => none
+
+/-- canonical integers followed by the raw words -/
+def showElems (P : Params) (d : List Nat) : String :=
+  joinNat (d.map P.F.asInt ++ d)
+
+/-- a list of integers; the empty list is written `-`; no token at all is malformed -/
+def natList' (xs : List String) : Option (List Nat) :=
+  if xs = ["-"] then some [] else if xs.isEmpty then none else natList xs
+
+def u64Max : Nat := 18446744073709551615
+
+/-- the permutation is a public function of the 64-bit instances only -/
+def permPublic (P : Params) : Bool := P.name != "rp62"
+
+def digestLine (P : Params) (d : List Nat) : String :=
+  if P.name == "rp62" then
+    let back := match digestRead62 (digestSer62 d) with
+      | some (e, rest) => s!"{joinNat (e.map P.F.asInt)} {rest.length}"
+      | none => "eof"
+    s!"{hexOf (digestBytes62 d)} {hexOf (digestSer62 d)} {back}"
+  else
+    let back := match digestRead64 (digestBytes64 d) with
+      | some (e, rest) => s!"{joinNat (e.map P.F.asInt)} {rest.length}"
+      | none => "eof"
+    s!"{hexOf (digestBytes64 d)} {hexOf (digestBytes64 d)} {back}"
+
+def handleRescue (P : Params) : List String → String
+  | ["hash", h] =>
+    match unhex h with
+    | some bs =>
+      match hashBytes P bs with
+      | .ok d => showElems P d
+      | .panic _ => "panic"
+    | none => "bad-op"
+  | "hashel" :: rest =>
+    match natList' rest with
+    | some v => showElems P (hashElements P (v.map P.F.new))
+    | none => "bad-op"
+  | "hashraw" :: rest =>
+    match natList' rest with
+    | some v => showElems P (hashElements P v)
+    | none => "bad-op"
+  | "hashext" :: deg :: rest =>
+    match deg.toNat?, natList' rest with
+    | some d, some v =>
+      if (d = 2 ∨ d = 3) ∧ v.length % d = 0 then showElems P (hashElements P (v.map P.F.new)) else "bad-op"
+    | _, _ => "bad-op"
+  | "merge" :: rest =>
+    match natList' rest with
+    | some v =>
+      if v.length = 8 then showElems P (merge P ((v.take 4).map P.F.new) ((v.drop 4).map P.F.new)) else "bad-op"
+    | none => "bad-op"
+  | "mergeraw" :: rest =>
+    match natList' rest with
+    | some v => if v.length = 8 then showElems P (merge P (v.take 4) (v.drop 4)) else "bad-op"
+    | none => "bad-op"
+  | ["mergeint", a, b, c, d, v] =>
+    match natList [a, b, c, d], v.toNat? with
+    | some s, some v =>
+      if v ≤ u64Max then showElems P (mergeWithInt P (s.map P.F.new) v) else "bad-op"
+    | _, _ => "bad-op"
+  | "perm" :: rest =>
+    match natList' rest with
+    | some v =>
+      if permPublic P ∧ v.length = P.width then showElems P (applyPermutation P v) else "bad-op"
+    | none => "bad-op"
+  | "round" :: r :: rest =>
+    match r.toNat?, natList' rest with
+    | some r, some v =>
+      if permPublic P ∧ v.length = P.width then
+        match applyRound P v r with
+        | some st => showElems P st
+        | none => "bad-op"
+      else "bad-op"
+    | _, _ => "bad-op"
+  | "digest" :: rest =>
+    match natList' rest with
+    | some v => if v.length = 4 then digestLine P v else "bad-op"
+    | none => "bad-op"
+  | ["digread", h] =>
+    match unhex h with
+    | some bs =>
+      match (if P.name == "rp62" then digestRead62 bs else digestRead64 bs) with
+      | some (e, rest) => s!"{showElems P e} {rest.length}"
+      | none => "eof"
+    | none => "bad-op"
+  | _ => "bad-op"
+
+def field? : String → Option (FieldImpl × Bool × Bool)   -- (field, IS_CANONICAL, cubic extension)
+  | "f64" => some (Model.F64.impl, Gen.F64.IS_CANONICAL, true)
+  | "f62" => some (Model.F62.impl, Gen.F62.IS_CANONICAL, true)
+  | "f128" => some (Model.F128.impl, Gen.F128.IS_CANONICAL, false)
+  | _ => none
+
+/-- the byte hashers: the output is the byte string fed to the opaque hash function -/
+def handleBytes (n : Nat) : List String → String
+  | ["hash", _] => "-"
+  | "hashel" :: f :: rest =>
+    match field? f, natList' rest with
+    | some (F, can, _), some v => hexOf (bytesFedElements F can (v.map F.new))
+    | _, _ => "bad-op"
+  | "hashraw" :: f :: rest =>
+    match field? f, natList' rest with
+    | some (F, can, _), some v => hexOf (bytesFedElements F can v)
+    | _, _ => "bad-op"
+  | "hashext" :: f :: deg :: rest =>
+    match field? f, deg.toNat?, natList' rest with
+    | some (F, can, cubic), some d, some v =>
+      if (d = 2 ∨ (d = 3 ∧ cubic)) ∧ v.length % d = 0 then hexOf (bytesFedElements F can (v.map F.new))
+      else "bad-op"
+    | _, _, _ => "bad-op"
+  | ["merge", a, b] =>
+    match unhex a, unhex b with
+    | some a, some b => if a.length = n ∧ b.length = n then hexOf (bytesFedMerge a b) else "bad-op"
+    | _, _ => "bad-op"
+  | ["mergeint", a, v] =>
+    match unhex a, v.toNat? with
+    | some a, some v => if a.length = n ∧ v ≤ u64Max then hexOf (bytesFedMergeInt a v) else "bad-op"
+    | _, _ => "bad-op"
+  | _ => "bad-op"
+
+def handle : List String → String
+  | h :: rest =>
+    match rescue? h with
+    | some P => handleRescue P rest
+    | none =>
+      match h with
+      | "blake3_256" => handleBytes 32 rest
+      | "blake3_192" => handleBytes 24 rest
+      | "sha3_256" => handleBytes 32 rest
+      | _ => "bad-op"
+  | _ => "bad-op"
 
 end Drv.C11
 
